@@ -133,7 +133,10 @@ func (w *World) Settle() {
 }
 
 // SettleUntil spins until cond holds (if given) and activity has been stable for 1 ms real time; capped at 100 ms.
-func (w *World) SettleUntil(cond func() bool) {
+func (w *World) SettleUntil(cond func() bool) { w.SettleUntilCap(cond, 500) }
+
+// SettleUntilCap is SettleUntil with an explicit cap in ticks of 200 us.
+func (w *World) SettleUntilCap(cond func() bool, capTicks int64) {
 	start := ticks.Load()
 	last := w.activity.Load()
 	lastChange := ticks.Load()
@@ -143,7 +146,7 @@ func (w *World) SettleUntil(cond func() bool) {
 		if a := w.activity.Load(); a != last {
 			last, lastChange = a, now
 		}
-		if now-start > 500 { // 100 ms
+		if now-start > capTicks {
 			return
 		}
 		if now-lastChange >= 5 && (cond == nil || cond()) {
